@@ -102,6 +102,7 @@ pub fn pick_profile(r: &mut Rng, weights: &ProfileWeights) -> Profile {
                 (obs::D_WAIT, "wait"),
                 (obs::D_CACHE, "cache"),
                 (obs::D_FINISH_AT_HEAD, "finish-at-head"),
+                (obs::D_AFTER_NOTIFY, "after-notify"),
             ];
             let allowed: Vec<_> = all.iter().filter(|(b, _)| weights.directors & b != 0).collect();
             let (bits, name) = if allowed.is_empty() { all[r.usize(all.len())] } else { **r.pick(&allowed) };
@@ -390,6 +391,30 @@ pub fn stall_violation(out: &RunOut) -> Option<Violation> {
 pub trait Campaign {
     fn prop(&self) -> &'static str;
     fn iterate(&self, iter_seed: u64, rep: &mut ShardReport, deadline: Instant);
+}
+
+/// Weighted mixture of campaigns reported under one property.
+pub struct Composite {
+    pub prop: &'static str,
+    pub parts: Vec<(u32, Box<dyn Campaign>)>,
+}
+
+impl Campaign for Composite {
+    fn prop(&self) -> &'static str {
+        self.prop
+    }
+    fn iterate(&self, iter_seed: u64, rep: &mut ShardReport, deadline: Instant) {
+        let weights: Vec<u32> = self.parts.iter().map(|p| p.0).collect();
+        let i = Rng::new(iter_seed ^ 0xC0DE).weighted(&weights);
+        let before = rep.findings.len();
+        self.parts[i].1.iterate(iter_seed, rep, deadline);
+        for f in rep.findings[before..].iter_mut() {
+            f.property = self.prop.to_string();
+            if let Some(obj) = f.replay.as_object_mut() {
+                obj.insert("property".into(), self.prop.into());
+            }
+        }
+    }
 }
 
 /// Drive a campaign for `budget`.
